@@ -14,7 +14,7 @@ for i in range(1, 20):
     cases = fallback.cases_for(pid, 0)
     if pid in ('C08', 'C09'):
         cases = fallback.first_oversize(pid, 0) + cases
-    cases = [{'kind': 'hostile-prelude'}, {'kind': 'sanity'}] * (pid not in ('C12',)) + cases
+    cases = [{'kind': 'prelude-then-sanity', 'op': 'all'}, {'kind': 'hostile-prelude'}, {'kind': 'sanity'}] * (pid not in ('C12',)) + cases
     p = os.path.join(V, 'work', 'selftest_%s.json' % pid)
     os.makedirs(os.path.dirname(p), exist_ok=True)
     json.dump({'property': pid, 'pkg': 'field' if pid == 'C12' else 'root', 'cases': cases}, open(p, 'w'))
